@@ -340,9 +340,14 @@ XalanTranscodingServices::encodingIsUTF8(const XalanDOMString&  theEncodingName)
 bool
 XalanTranscodingServices::encodingIsUTF16(const XalanDOMChar*   theEncodingName)
 {
+    // UTF-16 data is passed through without transcoding, in the byte
+    // order of the platform, so an explicit byte order is only UTF-16
+    // in this sense if it is the platform's.  The other one needs a
+    // transcoder.
     return compareIgnoreCaseASCII(theEncodingName, s_utf16String) == 0 ||
-           compareIgnoreCaseASCII(theEncodingName, s_utf16LEString) == 0 ||
-           compareIgnoreCaseASCII(theEncodingName, s_utf16BEString) == 0 ? true : false;
+           compareIgnoreCaseASCII(
+                theEncodingName,
+                xercesc::XMLPlatformUtils::fgXMLChBigEndian == true ? s_utf16BEString : s_utf16LEString) == 0 ? true : false;
 }
 
 
